@@ -135,7 +135,7 @@ def prepare_specdir(name):
     return d
 
 
-def tlc(module, cfg, name=None, workers=None, args=(), timeout=600, env=None, heap="4g", consts=None, specdir=None, deque=False):
+def tlc(module, cfg, name=None, workers=None, args=(), timeout=600, env=None, heap="4g", consts=None, specdir=None, deque=False, defs=None):
     """Run TLC on spec/<module>.tla with spec/<cfg>. `consts` (dict) is appended to a
     copy of the cfg as CONSTANT assignments so one cfg serves several bounds."""
     name = name or (module + "." + os.path.splitext(os.path.basename(cfg))[0])
@@ -148,6 +148,21 @@ def tlc(module, cfg, name=None, workers=None, args=(), timeout=600, env=None, he
         cfgpath = os.path.join(d, "_gen_" + os.path.basename(cfg))
         with open(cfgpath, "w") as f:
             f.write(txt)
+    if defs:
+        # constants that a .cfg cannot express (tuples, records): define them in a wrapper module
+        wrap = module + "_run"
+        with open(os.path.join(d, wrap + ".tla"), "w") as f:
+            f.write("---- MODULE %s ----\nEXTENDS %s\n" % (wrap, module))
+            for k, v in defs.items():
+                f.write("c_%s == %s\n" % (k, v))
+            f.write("====\n")
+        with open(cfgpath) as f:
+            txt = f.read()
+        txt += "\nCONSTANTS\n" + "".join("  %s <- c_%s\n" % (k, k) for k in defs)
+        cfgpath = os.path.join(d, "_def_" + os.path.basename(cfg))
+        with open(cfgpath, "w") as f:
+            f.write(txt)
+        module = wrap
     meta = os.path.join(d, "meta.%d" % random.randrange(1 << 30))
     jopts = ["-XX:+UseParallelGC", "-Xmx" + heap, "-Xss512m"]
     if deque:
